@@ -678,12 +678,15 @@ def _param_sides(ctx, c):
 
     def loop_sig(fn, meth):
         out = []
-        for x in walk_shallow(fn.node):
-            if isinstance(x, ast.For) and any(isinstance(y, ast.Call) and isinstance(y.func, ast.Attribute) and y.func.attr == meth
-                                              for y in ast.walk(x)):
-                # local names used in the iterable (prefs = [...]) are expanded, bound names numbered
-                from ..engine import canon_text
-                out.append(canon_text(fn, x.iter))
+        hits = [x for x in walk_shallow(fn.node)
+                if isinstance(x, ast.For) and any(isinstance(y, ast.Call) and isinstance(y.func, ast.Attribute) and y.func.attr == meth
+                                                  for y in ast.walk(x))]
+        for x in hits:
+            if any(o is not x and any(y is x for y in ast.walk(o)) for o in hits):
+                continue        # the loop over one component's own entries, inside the loop over the components
+            # local names used in the iterable (prefs = [...]) are expanded, bound names numbered
+            from ..engine import canon_text
+            out.append(canon_text(fn, x.iter))
         return sorted(out)
 
     def is_prefix_key(e):
@@ -706,6 +709,8 @@ def _param_sides(ctx, c):
         if isinstance(x, ast.Assign):
             for tg in x.targets:
                 if isinstance(tg, ast.Subscript) and isinstance(tg.value, ast.Name):
+                    if is_prefix_key(tg.slice):
+                        continue
                     t = _templates(ctx, g, tg.slice)
                     (wk.add(t) if t not in (None, "{}") else unknown.append(U(tg.slice)))
     sp = [p for p in s.params if p != "self"]
